@@ -101,7 +101,7 @@ pub fn run_c12(a: &Args) {
     let mut rng = Rng::new(a.seed);
     let mut st = Stats::default(); let mut out = Out::new(&a.out);
     // exhaustive over an alphabet of character-class representatives
-    let alpha: Vec<char> = vec!['^', '1', '8', 'v', 'a', '|', '*', '#', '\\', 'L', 'K', 'x', ' ', 'é', '日'];
+    let alpha: Vec<char> = vec!['^', '1', '8', 'v', 'a', '|', '*', '#', '\\', 'L', 'K', 'x', ' ', 'é', '日', '\u{b2}', '\u{ff12}'];
     let maxlen = if a.thorough() { 6 } else { 4 };
     let mut idx = vec![0usize; 0];
     let mut seen = 0u64;
@@ -126,7 +126,7 @@ pub fn run_c12(a: &Args) {
     // segment strings: runs in different scripts (Latin-1 letters whose bytes are lead bytes of the CJK codepages included) joined by
     // colour codes (^8 resets the codepage), carets, escaped characters and codepage letters: every sequence of up to 4 segments of
     // one pool, then random longer ones
-    let segs: Vec<&str> = vec!["\u{7f8e}", "\u{e9}", "\u{e9}\u{e0}", "\u{448}", "^8", "^1", "^", "L", "J", "\u{ff8f}", "a", "|", "\u{3b1}", "\u{e9}\u{e0}\u{fc}"];
+    let segs: Vec<&str> = vec!["\u{b2}", "\u{ff12}", "\u{bd}", "\u{663}", "\u{7f8e}", "\u{e9}", "\u{e9}\u{e0}", "\u{448}", "^8", "^1", "^", "L", "J", "\u{ff8f}", "a", "|", "\u{3b1}", "\u{e9}\u{e0}\u{fc}"];
     let smax = if a.thorough() { 5 } else { 4 };
     let mut sidx: Vec<usize> = vec![];
     loop {
@@ -272,6 +272,23 @@ pub fn run_c10(a: &Args) {
         match guard(|| to_lossy_string(&v).to_string()) { None => st.fail("[C10] to_lossy_string panics".into(), format!("bytes {}", hex(&v))), Some(sv) => { if !sv.contains('\u{fffd}') && b != 0x5e && !(b >= 0x80 && tail.first() == Some(&0x5e)) { out.case(&format!("tostring {}", hex(&v)), &cps(&sv)); } } }
     } } }
     st.exhaustive.push("every byte value after every marker letter (11 x 256 x 4 continuations)".into());
+    // every string of up to 3 (thorough: 4) class bytes after every marker letter, as the END of the input: lead bytes of the double-byte
+    // codepages, digits, caret, letters, 0x80 / 0xFF - the scan must neither panic nor read past the end
+    {
+        const CLS: [u8; 13] = [0x81, 0xfe, 0xa1, 0xe0, 0x9f, b'0', b'9', b'^', b'a', b'S', 0x80, 0xff, 0x7f];
+        let maxl = if a.thorough() { 4 } else { 3 };
+        for l in MARKERS.chars() { let mut idx: Vec<usize> = vec![];
+            loop {
+                let mut v = vec![b'^', l as u8]; v.extend(idx.iter().map(|i| CLS[*i])); st.evaluations += 1;
+                decode_oracle(&v, &mut st);
+                if guard(|| to_lossy_string(&v).to_string()).is_none() { st.fail("[C10] to_lossy_string panics".into(), format!("bytes:{}=", hex(&v))); }
+                let mut kk = idx.len();
+                loop { if kk == 0 { idx = vec![0; idx.len() + 1]; break; } kk -= 1; if idx[kk] + 1 < CLS.len() { idx[kk] += 1; for j in kk + 1..idx.len() { idx[j] = 0; } break; } }
+                if idx.len() > maxl { break; }
+            }
+        }
+        st.exhaustive.push(format!("every string of <= {maxl} class bytes (13 classes) after every marker letter, ending the input"));
+    }
     for _ in 0..(if a.thorough() { 500_000 } else { 30_000 }) { let len = rng.range(0, 24) as usize; let mut v = rng.bytes(len); for i in 0..v.len() { if rng.chance(1, 5) { v[i] = b'^'; } else if rng.chance(1, 6) { v[i] = *rng.pick(MARKERS.as_bytes()); } } st.evaluations += 1; if guard(|| to_lossy_string(&v).to_string()).is_none() { st.fail("[C10] to_lossy_string panics".into(), format!("bytes {}", hex(&v))); } decode_oracle(&v, &mut st); }
     // marker-rich valid sequences: two or three segments in different codepages, with ^8 and repeated / trailing markers
     for _ in 0..(if a.thorough() { 200_000 } else { 20_000 }) {
